@@ -182,7 +182,7 @@ def scanning_bodies(ctx):
 
 def h2_haystack(ctx, rid='H2'):
     """H2 regex offsets are offsets into the line"""
-    ctx.rule(rid, 'match haystack is the line the byte->char map was built from', floor=13)
+    ctx.rule(rid, 'match haystack is the line the byte->char map was built from', floor=15)
     F = ctx.facts
     O = Origins(ctx, NAMED)
     # (a) every construction of a Tokinizer: data and the char map come from the same line, unchanged
@@ -205,8 +205,21 @@ def h2_haystack(ctx, rid='H2'):
                         ctx.finding(rid, '%s/tokinizer-data-vs-char-map' % fn_key(b.path),
                                     '%s builds Tokinizer.data from %s but the byte->char map from %s: regex byte offsets into one string are translated with the map of another' % (
                                         fn_key(b.path), sorted(od), sorted(om)), site=s['loc'])
-    if n < 2:
-        raise AnchorLost('expected two constructions of Tokinizer (new, token_infos), found %d' % n)
+    if n < 1:
+        raise AnchorLost('no construction of a Tokinizer found')
+    # a function that hands back such a construction is a constructor: each of its call sites is one more place where a
+    # tokenizer comes into being with data and char map from one line (so `token_infos` delegating to `new` counts as before)
+    ctors = set()
+    for b in F.src_bodies():
+        if b.kind in ('fn', 'method') and not b.loops():
+            r = strip(b.ret_expr())
+            if r[0] == 'aggr' and r[1] == 'tokinizer::Tokinizer::Tokinizer':
+                ctors.add(b.path)
+    for b in F.src_bodies():
+        for bid, t in b.calls():
+            c = t.get('callee')
+            if c and c['path'] in ctors:
+                ctx.ok(rid, '%s obtains its tokenizer from the constructor %s' % (fn_key(b.path), fn_key(c['path'])), 'identity', site=t['loc'], sample=False)
     from ..effects import field_assigns
     for b in F.src_bodies():
         for fld in ('tokinizer::Tokinizer.data', 'token::ui_token::UiTokenCollection.char_sizes'):
